@@ -18,6 +18,7 @@ import pyerrors as pe
 
 from harness import gen, fitgen
 from harness.jsonsafe import rat, ratx
+from harness.frames import snap, frame_event
 from harness.pe_project import project_obs
 
 RULE = ('cases = (basis x number of data sets x ensemble structure x prior form and subset x correlation mode x method x gradient mode), plus '
@@ -136,17 +137,25 @@ def make_case(rng, i, ctx):
         if corr_mode == 'supplied':
             kw['inv_chol_cov_matrix'] = [L, sorted(keys)]
 
+    held = {}
+
     def run(order_keys, perm):
         if nkeys == 1 and rng.random() < 0.7 and order_keys == keys:
             key = keys[0]
             xx = xs[key][..., perm[key]]
             yy = [ys[key][j] for j in perm[key]]
+            if 'before' not in held:
+                held['args'] = [yy, [v for v in (kw.get('priors').values() if isinstance(kw.get('priors'), dict) else kw.get('priors') or []) if isinstance(v, pe.Obs)]]
+                held['before'] = snap(held['args'])
             if 'inv_chol_cov_matrix' in kw:
                 return pe.fits.least_squares({key: xx}, {key: yy}, {key: models[key][0]}, **kw)
             return pe.fits.least_squares(xx, yy, models[key][0], **kw)
         xd = {key: xs[key][..., perm[key]] for key in order_keys}
         yd = {key: [ys[key][j] for j in perm[key]] for key in order_keys}
         fd = {key: models[key][0] for key in order_keys}
+        if 'before' not in held:
+            held['args'] = [yd, [v for v in (kw.get('priors').values() if isinstance(kw.get('priors'), dict) else kw.get('priors') or []) if isinstance(v, pe.Obs)]]
+            held['before'] = snap(held['args'])
         return pe.fits.least_squares(xd, yd, fd, **kw)
 
     ident = {key: list(range(xs[key].shape[-1])) for key in keys}
@@ -179,8 +188,11 @@ def make_case(rng, i, ctx):
     rec = fitgen.fit_result_record(res, corr_mode != 'none')
     rec['ncov'] = int(min(o.N for o in ysorted))
     cid = 'fit-%04d-n%dD%d-k%d-%s-%s-%s-%s%s' % (i, n, D, nkeys, kind, prior_form, corr_mode, method.replace('-', ''), '-num' if numgrad else '')
+    frame = frame_event(cid + '-frame', 'least_squares leaves the data and prior observables as they were', held['before'], held['args'])
     cases = [{'id': cid, 'ev': 'fit', 'mode': 'fit', 'n': n, 'linear': True, 'method': method, 'numgrad': numgrad, 'exprs': exprs, 'points': points,
               'y': [project_obs(o) for o in ysorted], 'W': W, 'priors': pri, 'res': rec}]
+    if i % 2 == 0:
+        cases.append(frame)
     ctx.nontrivial.add((n, D, nkeys, kind, prior_form, corr_mode, method, numgrad))
     # permutation twin: points permuted inside every key, keys handed over in another order
     if rng.random() < 0.5 and 'inv_chol_cov_matrix' not in kw and priors is None or (priors is not None and prior_form.startswith('dict') and rng.random() < 0.3 and 'inv_chol_cov_matrix' not in kw):
@@ -252,8 +264,6 @@ def corrfit_cases(rng, n, ctx):
                       'points': [{'e': 1, 'x': [rat(float(t))]} for t in pts], 'y': [project_obs(o) for o in ys],
                       'W': {'k': 'diag', 'dy': before}, 'priors': [], 'res': rec})
         cases.append({'id': cid + '-frame', 'ev': 'frame', 'what': 'Corr.fit leaves the errors of the correlator as the caller computed them', 'before': before, 'after': after})
-        cases.append({'id': cid + '-frame2', 'ev': 'frame', 'what': 'Corr.fit leaves the range it was given (and the stored plateau range) as they were',
-                      'before': [lo, hi] + ([lo, hi] if entry == 'prange' else []), 'after': [int(v) for v in fr] + ([int(v) for v in c.prange] if entry == 'prange' else [])})
         try:
             res2 = _quiet(lambda: c.fit(f, fr, silent=True) if entry == 'range' else c.fit(f, silent=True))
             cases.append({'id': cid + '-again', 'ev': 'same', 'what': 'the same fit request a second time', 'rtol': '1/10000000000',
